@@ -11,9 +11,10 @@
       next scenario). Every received line and every write is appended to <dir>/<sid>.log.
 
   helper_authhelper.py auth <dir>
-      auth_param basic program (concurrent protocol: "<id> <user> <password>"). The verdict and the latency are
-      written in the password itself: "ok-<ms>-<anything>" => "<id> OK" after <ms> milliseconds,
-      "no-<ms>-<anything>" => "<id> ERR" after <ms> ms; anything else => ERR at once. Log: <dir>/auth.log.
+      auth_param basic program (concurrent protocol: "<id> <user> <password>"). Passwords starting with "ok" are
+      accepted, all others rejected. Every lookup is appended to <dir>/auth.log as `recv <seq> <user> <password>`
+      and answered only when the driver creates the file <dir>/rel.<seq> (so the check decides the order of
+      arrivals and helper replies itself, without depending on timing).
 """
 import heapq, json, os, re, select, sys, time
 
@@ -95,36 +96,38 @@ def run_script(d):
 
 
 def run_auth(d):
+    """Every lookup is logged (`recv <seq> <user> <password>`) and held until the driver creates <d>/rel.<seq>."""
     rd = LineReader()
     logp = os.path.join(d, "auth.log")
-    due = []
+    held = {}
     seq = 0
+    log(logp, "start")
     while True:
-        now = time.time()
-        while due and due[0][0] <= now:
-            _, _, out = heapq.heappop(due)
-            os.write(1, out)
-            log(logp, "reply %r" % out)
+        if held:
+            try:
+                names = set(os.listdir(d))
+            except OSError:
+                names = set()
+            for k in sorted(held):
+                if "rel.%d" % k in names:
+                    out = held.pop(k)
+                    os.write(1, out)
+                    log(logp, "reply %d %s" % (k, out.decode("latin1").strip()))
         l = rd.pop()
         if l is None:
             if rd.eof:
                 return
-            rd.fill(max(0.0, min(0.5, due[0][0] - time.time())) if due else 0.5)
+            rd.fill(0.004 if held else 0.5)
             continue
-        log(logp, "recv %r" % l)
         parts = l.split(b" ")
         if len(parts) < 3:
-            os.write(1, (parts[0] if parts else b"0") + b" BH message=\"bad request line\"\n")
+            os.write(1, (parts[0] if parts else b"0") + b" ERR\n")
             continue
         cid, user, pw = parts[0], parts[1], parts[2]
-        m = re.match(rb"(ok|no)-(\d+)-", pw)
-        if m:
-            verdict = b"OK" if m.group(1) == b"ok" else b"ERR"
-            delay = int(m.group(2)) / 1000.0
-        else:
-            verdict, delay = b"ERR", 0.0
         seq += 1
-        heapq.heappush(due, (time.time() + delay, seq, cid + b" " + verdict + b"\n"))
+        verdict = b"OK" if pw.startswith(b"ok") else b"ERR"
+        held[seq] = cid + b" " + verdict + b"\n"
+        log(logp, "recv %d %s %s" % (seq, user.decode("latin1"), pw.decode("latin1")))
 
 
 def main():
